@@ -44,9 +44,14 @@ Definition bincountG {A} (zero : A) (add : A -> A -> A) (idx : list nat) (w : li
 Definition rho (pindex : list nat) (nbin : nat) : list nat :=
   bincountG 0 Nat.add pindex (repeat 1 (length pindex)) nbin.
 
+(* the four application modes of a LinearOperator (TIMES, ADJOINT_TIMES, INVERSE_TIMES, ADJOINT_INVERSE_TIMES) *)
+Inductive dmode := MTimes | MAdjoint | MInverse | MAdjInverse.
+Definition inverse_mode (m : dmode) : bool := match m with MInverse | MAdjInverse => true | _ => false end.
+
 Section Arith.
 Variable R : Type.
 Variables (r0 r1 : R) (radd rmul : R -> R -> R) (rinv : R -> R).
+Variable rdiv : R -> R -> R.
 
 Definition get (a : list R) (t : nat) : R := nth t a r0.
 
@@ -250,6 +255,24 @@ Definition power_operator_times (d : list space) (idx : nat) (pindex : list nat)
   let post := prodsz (skipn (S idx) d) in
   let diag := dist_times 1 n 1 nbin pindex p in
   map (fun t => rmul (get x t) (get diag ((t / post) mod n))) (seq 0 (length x)).
+
+(* ---- DiagonalOperator.apply, all four modes, REAL diagonal (create_power_operator: `_trafo` = 0, so
+        trafo = self._ilog[mode] ^ self._trafo = 0 (TIMES), 1 (ADJOINT_TIMES), 2 (INVERSE_TIMES), 3 (ADJOINT_INVERSE_TIMES)):
+        if trafo == 0:  return Field(x.domain, x.val*self._ldiag)
+        if trafo == 1:  return Field(x.domain, mul_conj2(x.val, self._ldiag) if self._complex else x.val*self._ldiag)
+        if trafo == 2:  return Field(x.domain, x.val/self._ldiag)
+        return Field(x.domain, div_conj2(x.val, self._ldiag) if self._complex else x.val/self._ldiag)
+      (`self._complex` is the DIAGONAL's complexity: false for a power spectrum).  A zero diagonal entry in an
+      inverse mode (IEEE inf/nan in the code, x/0 totalised in a field) is excluded by the theorems. *)
+Definition power_operator_apply (m : dmode) (d : list space) (idx : nat) (pindex : list nat) (nbin : nat)
+           (p : list R) (x : list R) : list R :=
+  let n := size_at d idx in
+  let post := prodsz (skipn (S idx) d) in
+  let diag := dist_times 1 n 1 nbin pindex p in
+  map (fun t => match m with
+                | MTimes | MAdjoint => rmul (get x t) (get diag ((t / post) mod n))
+                | MInverse | MAdjInverse => rdiv (get x t) (get diag ((t / post) mod n))
+                end) (seq 0 (length x)).
 
 (* ---- histories: power_analyze keeps NO state between calls.  The model of a sequence of calls in
         one process (same or different domains, binnings, phase flags; failing calls and retries) is
